@@ -577,12 +577,31 @@ class C15Reset(Monitor):
         ex = [k for _, k in C10NoSpam.executions
               if k in ('reset', 'force_reset')]
         C10NoSpam.executions = []
+        out = []
+        if ex and self.pre:
+            # a reset is the answer to a reset command: it is never executed
+            # more often than such commands were posted on the pull request
+            # (a stale command that keeps firing makes "the next evaluation
+            # rebuilds" false and lets a later plain evaluation discard work)
+            pid = self.pre['pid']
+            cnt = hist.mon_state.setdefault('c15_exec', {})
+            cnt[pid] = cnt.get(pid, 0) + 1
+            log = hist.mon_state.get('c10_posted', {})
+            posted = log.get((pid, 'reset'), 0) + \
+                log.get((pid, 'force_reset'), 0)
+            if cnt[pid] > posted:
+                out.append((
+                    'C15: %s executed for the %d. time on PR #%d although '
+                    'only %d reset command(s) were posted: the evaluation '
+                    'after a reset does not rebuild' % (
+                        ex[0], cnt[pid], pid, posted),
+                    {'monitor': 'C15',
+                     'clause': 'reset_executed_without_command'}))
         if not ex or not self.pre or \
                 res.status not in ('ResetComplete', 'LossyResetWarning'):
-            return
+            return out
         cmd = ex[0]
         pre = self.pre
-        out = []
         changed = [(old, new, ref[len(H):]) for tx in res.txs
                    for a, old, new, ref in tx
                    if a == 'berte' and ref.startswith(H)]
